@@ -26,22 +26,42 @@ Definition hres_eqb (a b : hres) : bool :=
   | _, _ => false
   end.
 
-(* the serialized sample / key is decoded by the XCDR codec (modelled elsewhere: C09);
-   this model predicts the reader-side derivations without key hash only where that
-   codec is the plain (non parameter-list) encoding *)
-Definition codec_in_scope (t : ty) : bool :=
-  match t with TStruct Mutable _ => false | _ => true end.
+(* the serialized sample / key is decoded by the XCDR codec (modelled elsewhere: C09).
+   This model predicts the reader-side derivations WITHOUT key hash only for sample
+   types on which that codec returns the sample it was given; on the real code it does
+   not for MUTABLE structures, FLOAT128 members, multi-dimensional arrays and optional
+   members (finding C11-reader-derivation-codec) *)
+Fixpoint codec_ok (t : ty) : bool :=
+  match t with
+  | TPrim PF128 => false
+  | TPrim _ => true
+  | TStr _ => true
+  | TSeq e _ => codec_ok e
+  | TArr e dims => (len dims =? 1) && codec_ok e
+  | TStruct x ms => match x with Mutable => false | _ => true end && codec_ok_ms ms
+  end
+with codec_ok_ms (ms : members) : bool :=
+  match ms with
+  | MNil => true
+  | MCons _ _ o t r => negb o && codec_ok t && codec_ok_ms r
+  end.
+Definition codec_in_scope (t : ty) : bool := codec_ok t.
 
 Definition KH_run (o : KH_op) : list (option hres) :=
   match o with
   | OpH t d1 d2 => [Some (hres_of (instance_handle t d1)); Some (hres_of (instance_handle t d2))]
   | OpR t d =>
       let w := hres_of (instance_handle t d) in
-      let a := if codec_in_scope t then Some w else None in
-      let k := if codec_in_scope t
-               then Some (hres_of (kd <- key_holder_data t d ;; reader_handle_from_key t kd))
-               else None in
-      [Some w; a; a; k; k; Some w; Some w]
+      match w with
+      | H _ =>
+          let a := if codec_in_scope t then Some w else None in
+          let k := if codec_in_scope t
+                   then Some (hres_of (kd <- key_holder_data t d ;; reader_handle_from_key t kd))
+                   else None in
+          [Some w; a; a; k; k; Some w; Some w]
+      | _ => (* write/dispose fail before any change is handed to the transport *)
+          [Some w; Some w; Some w; Some w; Some w; Some w; Some w]
+      end
   end.
 
 Fixpoint outs_agree (m : list (option hres)) (o : list hres) : bool :=
@@ -82,8 +102,8 @@ Definition C11_oracle_ok (c : KH_case) : bool :=
 
 (* class 1: two members of the flattened key holder share a member id
             (finding C11-key-id-collision)
-   class 2: MUTABLE topic type, sample or key travelling without key hash
-            (finding C11-reader-derivation-mutable) *)
+   class 2: sample or key travelling without key hash, sample type outside the
+            fragment on which the XCDR codec round-trips (finding C11-reader-derivation-codec) *)
 Definition C11_known (c : KH_case) : N :=
   match c_op c with
   | OpH t _ _ => if key_ids_unique t then 0%N else 1%N
@@ -107,10 +127,6 @@ Definition C12_oracle_ok (c : KH_case) : bool :=
 
 (* class 1: the maximum size of the key exceeds 16 bytes (or is unbounded) but this
    value's serialized key is at most 16 bytes long (finding C12-actual-length) *)
-Definition short_of_long (t : ty) (d : fields) : bool :=
-  negb (key_max_le16 t) &&
-  match key_bytes t d with Ok b => len b <=? 16 | _ => false end.
-
 Definition C12_known (c : KH_case) : N :=
   match c_op c with
   | OpH t d1 d2 => if short_of_long t d1 || short_of_long t d2 then 1%N else 0%N
